@@ -333,7 +333,7 @@ def generate(run_seed: int, cfg: Dict[str, Any]) -> Dict[str, Any]:
             ops.append({"op": "get", "key": {"model": pk["model"], "sql": pk["sql"], "dm": [[n1, f2], [n2, f1]]},
                         "dst": r.randrange(N_POOL)})
             continue
-        nm = r.sample(NAMES[:n_names], r.choice([1, 1, 2]) if n_names > 1 else 1)
+        nm = r.sample(NAMES[:n_names], min(n_names, r.choice([1, 1, 2, 3])) if n_names > 1 else 1)
         if r.random() < 0.3:
             nm = list(reversed(nm))
         dm = [[n, r.randrange(N_POOL)] for n in nm]
